@@ -267,7 +267,7 @@ def frames_axioms():
 
 
 def _struct_pack(ex, args, kwargs, e):
-    if args[0] != '>I':
+    if args[0] not in ('>I', '>L'):
         raise Unsupported('struct.pack format %r' % (args[0],))
     n = ex._num(args[1])
     ex.vc('safe.struct.pack-range@%d' % e.lineno, And(n >= 0, n < TWO32), e.lineno)
@@ -275,7 +275,7 @@ def _struct_pack(ex, args, kwargs, e):
 
 
 def _struct_unpack(ex, args, kwargs, e):
-    if args[0] != '>I':
+    if args[0] not in ('>I', '>L'):
         raise Unsupported('struct.unpack format %r' % (args[0],))
     b = ex.to_z3(args[1], BYTES)
     ex.vc('safe.struct.unpack-size@%d' % e.lineno, z3.Length(b) == 4, e.lineno)
@@ -286,3 +286,41 @@ W.externs['struct.pack'] = Extern(fn=_struct_pack)
 W.externs['struct.unpack'] = Extern(fn=_struct_unpack)
 W.externs['dawgie.pl.message.loads'] = Extern(fn=lambda ex, args, kwargs, e: V(loads_fn(ex.to_z3(args[0], BYTES)), MSG))
 W.declare_fields('Hand', ghost_delivered=SeqOf(MSG))
+
+W.externs['pickle.loads'] = Extern(fn=lambda ex, args, kwargs, e: V(loads_fn(ex.to_z3(args[0], BYTES)), MSG))
+
+# log sink
+LOGSINK = Ref('LogSink')
+W.declare_fields('LogSink', _LogSink__buf=BYTES, _LogSink__len=Opt(INT), _LogSink__blen=INT, _LogSink__actual=Ref('LogHandler'),
+                 ghost_delivered=SeqOf(MSG))
+W.class_path['LogSink'] = 'dawgie.pl.logger.LogSink'
+W.externs['logging.makeLogRecord'] = Extern(fn=lambda ex, args, kwargs, e: args[0])
+W.methods[('LogHandler', 'flush')] = lambda ex, recv, args, kwargs, line: None
+
+# shelve comms.Worker framing state: a dict with the fixed keys actual/data/expected, modelled as a record object
+import dawgie.db.shelve.enums as _enums
+FUNC = W.enum(_enums.Func)
+COMMAND = Rec('COMMAND', {'func': FUNC, 'keyset': Opt(ATOM), 'table': Opt(ATOM), 'value': Opt(ATOM)})
+W.declare_fields('DbWorker', _Worker__buf=Ref('WBuf'), transport=TRANSPORT, ghost_delivered=SeqOf(MSG))
+W.declare_fields('WBuf', actual=INT, data=BYTES, expected=Opt(INT))
+cmd_of = z3.Function('command_of', MSG.sort(), COMMAND.sort())     # view of an unpickled payload as a COMMAND
+
+# ---------------------------------------------------------------------------- shelve store view (DESIGN §3)
+PK = Rec('PK', {'run': INT, 'tgt': INT, 'task': INT, 'alg': INT, 'sv': INT, 'val': INT})     # a prime key
+for _t in ('target', 'task', 'alg', 'state', 'value'):
+    W.declare_global('DBI.indices.' + _t, ListOf(STR))
+    W.declare_global('DBI.tables.' + _t, MapOf(STR, INT))
+RANGE = Rec('Range', {'start': INT, 'stop': Opt(INT)})
+SEARCHRESULTS = Rec('SearchResults', {'items': ListOf(STR), 'total': INT})
+W.rec_classes['dawgie.db.basis.Range'] = RANGE
+W.rec_classes['dawgie.db.basis.SearchResults'] = SEARCHRESULTS
+name_part = z3.Function('dissect_name', STR.sort(), STR.sort())       # dissect(key)[1]
+
+
+def _dissect(ex, args, kwargs, e):
+    """assumed here (proved under C06): dissect(construct(n, p, v)) = (p, n, v); only the name part is used by callers in this file"""
+    k = ex.to_z3(args[0], STR)
+    return (None, V(name_part(k), STR), None)
+
+
+W.externs['dawgie.db.shelve.util.dissect'] = Extern(fn=_dissect)
